@@ -117,6 +117,11 @@ public:
         {
             m_resetFunctor(*iterator);
         }
+
+        // Nothing is in use any more.  Objects that were not released,
+        // because an exception ended the transformation, would otherwise
+        // stay out of reach for the lifetime of the cache.
+        m_numObjectsOnStack = 0;
     }
 
     // Functors for various operations...
